@@ -1241,6 +1241,8 @@ func genC09(c *Ctx) {
 	c09Degrees(c)
 	c09Inputs(c)
 	c09PolyVectors(c)
+	c09Scalars(c)
+	c09ProtocolAliases(c)
 	c09RGSW(c)
 	c09Circuits(c)
 	c09LinTrans(c)
